@@ -39,6 +39,7 @@ type concDoc struct {
 	Schedule []int      `json:"schedule"` // index into the enabled list at every decision point
 	Bound    int        `json:"preemption_bound"`
 	Free     bool       `json:"free_running,omitempty"` // race target: no schedule, real goroutines
+	Timer    bool       `json:"timer,omitempty"`        // the set timeout of the prefix' HTLC fires during the phase
 }
 
 type concCase struct {
@@ -46,6 +47,10 @@ type concCase struct {
 	Store   string
 	Prefix  []string
 	Threads [][]string
+	// Timer: the auto-release timer of the (single) HTLC the prefix left accepted fires
+	// during the concurrent phase; the event loop's store transaction is one more
+	// schedulable step ("timer"), listed after the enabled threads at every decision point.
+	Timer bool
 }
 
 func (c concCase) String() string {
@@ -53,7 +58,11 @@ func (c concCase) String() string {
 	for _, th := range c.Threads {
 		t = append(t, strings.Join(th, ","))
 	}
-	return fmt.Sprintf("%s/%s prefix=[%s] threads=[%s]", c.Kind, c.Store, strings.Join(c.Prefix, " "), strings.Join(t, " || "))
+	tm := ""
+	if c.Timer {
+		tm = " || set-timeout"
+	}
+	return fmt.Sprintf("%s/%s prefix=[%s] threads=[%s%s]", c.Kind, c.Store, strings.Join(c.Prefix, " "), strings.Join(t, " || "), tm)
 }
 
 // concAlphabet is the per-kind alphabet of thread ops and sequential prefixes.
@@ -103,6 +112,17 @@ func concCases(thorough bool) []concCase {
 						out = append(out, concCase{Kind: al.Kind, Store: store, Prefix: pre, Threads: [][]string{{a}, {b}}})
 					}
 				}
+				if leavesOnePartial(pre) {
+					// the prefix' HTLC times out while one link (thorough: two links) is active
+					for i, a := range al.Ops {
+						out = append(out, concCase{Kind: al.Kind, Store: store, Prefix: pre, Threads: [][]string{{a}}, Timer: true})
+						for j, b := range al.Ops {
+							if thorough && j >= i {
+								out = append(out, concCase{Kind: al.Kind, Store: store, Prefix: pre, Threads: [][]string{{a}, {b}}, Timer: true})
+							}
+						}
+					}
+				}
 				if thorough {
 					// thread 1 performs two notifications, thread 2 one
 					for _, a := range al.Ops {
@@ -120,6 +140,16 @@ func concCases(thorough bool) []concCase {
 		}
 	}
 	return out
+}
+
+// leavesOnePartial reports whether the prefix is a single HTLC that carries less than the
+// total it declares (it is then held on the open invoice with a set timeout running).
+func leavesOnePartial(pre []string) bool {
+	if len(pre) != 1 {
+		return false
+	}
+	sp, err := parseHTLC(pre[0])
+	return err == nil && sp.hasTotal() && sp.Amt < sp.declaredTotal() && sp.Exp != "lo"
 }
 
 // shimInEffect reports whether the registry's mutexes are the scheduler shim.
@@ -208,6 +238,23 @@ func runSchedule(c concCase, sched []int, rep reporter, st *Stats, logf func(str
 		done bool
 	}
 	results := make([][]opResult, len(plan))
+	timerPending := false
+	if c.Timer {
+		nacc := 0
+		for _, h := range pre.Htlcs {
+			if h.State == "acc" {
+				nacc++
+			}
+		}
+		if !pre.Found || pre.State != "Open" || nacc != 1 {
+			return ex, fmt.Errorf("timer case needs a prefix that leaves exactly one accepted htlc on an open invoice, got %s", pre.canon())
+		}
+		// The store clock jumps now, so that HTLCs accepted during the phase get a
+		// release time beyond the timer step; the registry's clock jumps at the timer
+		// step itself, which makes exactly the timers of the prefix' HTLC due.
+		s.dbClk.SetTime(s.dbClk.Now().Add(holdDur))
+		timerPending = true
+	}
 	sch := vsched.New()
 	for ti := range plan {
 		ti := ti
@@ -247,12 +294,17 @@ func runSchedule(c concCase, sched []int, rep reporter, st *Stats, logf func(str
 	// observe judges what the step that just ended did: all threads are parked in front
 	// of a lock acquisition or a database call (or are done), so the store is between two
 	// transactions; at most one thread op has completed in the step.
+	var timerDelivered []Verdict
 	observe := func(stepped int) {
 		cur := s.lookup()
 		ex.snapshots[cur.canon()] = true
 		out := stepOut{post: cur, delivered: s.drain()}
 		ev := event{op: evOp, class: "conc"}
-		if done[stepped] < len(plan[stepped]) {
+		if stepped < 0 {
+			ev = event{op: evOp + " set-timeout", class: "conc-timeout"}
+			out.delivered = append(timerDelivered, out.delivered...)
+			timerDelivered = nil
+		} else if done[stepped] < len(plan[stepped]) {
 			// the op the stepping thread is in the middle of
 			to := plan[stepped][done[stepped]]
 			ev = event{op: fmt.Sprintf("%s link%d:%s", evOp, stepped+1, to.op), class: "conc", key: to.key, spec: w.rec[to.key].Spec}
@@ -282,33 +334,69 @@ func runSchedule(c concCase, sched []int, rep reporter, st *Stats, logf func(str
 		w.judge(s, ev, lastObs, out)
 		lastObs = cur
 	}
-	for !sch.AllDone() {
+	for !sch.AllDone() || timerPending {
 		en := sch.Enabled()
-		if len(en) == 0 {
+		n := len(en)
+		if timerPending {
+			n++ // the timer step is the last choice
+		}
+		if n == 0 {
 			ex.deadlock = sch.WaitFor()
 			break
 		}
 		pick := 0
 		if len(ex.choices) < len(sched) {
 			pick = sched[len(ex.choices)]
-			if pick >= len(en) {
-				return ex, fmt.Errorf("schedule diverged at point %d: choice %d of %d enabled", len(ex.choices), pick, len(en))
+			if pick >= n {
+				return ex, fmt.Errorf("schedule diverged at point %d: choice %d of %d enabled", len(ex.choices), pick, n)
 			}
 		}
+		isTimer := pick >= len(en)
 		// is choice 0 the continuation of the thread that ran last?
 		contFree := true
 		if tr := sch.Trace(); len(tr) > 0 {
 			last := tr[len(tr)-1].Thread
 			lt := sch.Thread(last)
-			if en[0] == last && !lt.Done() && lt.Pending() != "op" {
+			midOp := !lt.Done() && lt.Pending() != "op"
+			if len(en) > 0 && en[0] == last && midOp {
 				contFree = false
 			}
-			if en[pick] != last && !lt.Done() && lt.Pending() != "op" {
+			if midOp && (isTimer || en[pick] != last) {
 				ex.serial = false
 			}
 		}
-		ex.points = append(ex.points, concPoint{n: len(en), contFree: contFree})
+		ex.points = append(ex.points, concPoint{n: n, contFree: contFree})
 		ex.choices = append(ex.choices, pick)
+		if isTimer {
+			if logf != nil {
+				logf("schedule point %d: enabled %v + timer, run the event loop's set-timeout transaction", len(ex.choices), en)
+			}
+			// Fire the timer: the event loop (idle until now) runs cancelSingleHtlc,
+			// whose single store transaction reports its completion through the gate.
+			// All threads are parked, so this is one atomic step at this schedule point.
+			s.gate.mode.Store(2)
+			s.clk.Advance(holdDur)
+			var updated bool
+			guard := time.NewTimer(stallGuard)
+			select {
+			case updated = <-s.gate.done:
+			case <-guard.C:
+				return ex, fmt.Errorf("the event loop did not run the set-timeout cancellation within %v", stallGuard)
+			}
+			guard.Stop()
+			timerPending = false
+			ex.steps++
+			if updated {
+				// the registry now notifies the subscriber: completion signal
+				v, ok := s.awaitHodl()
+				if !ok {
+					return ex, fmt.Errorf("no resolution for the timed-out htlc within %v", stallGuard)
+				}
+				timerDelivered = append(timerDelivered, v)
+			}
+			observe(-1)
+			continue
+		}
 		if logf != nil {
 			logf("schedule point %d: enabled %v, run link%d from %q", len(ex.choices), en, en[pick]+1, sch.Thread(en[pick]).Pending())
 		}
@@ -369,7 +457,7 @@ func exploreCase(run *evid.Run, c concCase, bound int, deadline time.Time, st *S
 		var cur []int
 		rep := func(sig, what string, _, _ []string) {
 			theGate.report(run, "conc-"+sig, what, replayDoc{Kind: c.Kind, Stores: []string{c.Store},
-				Conc: &concDoc{Prefix: c.Prefix, Threads: c.Threads, Schedule: append([]int{}, cur...), Bound: bound}}, nil)
+				Conc: &concDoc{Prefix: c.Prefix, Threads: c.Threads, Schedule: append([]int{}, cur...), Bound: bound, Timer: c.Timer}}, nil)
 		}
 		var (
 			ex  concExec
@@ -379,7 +467,7 @@ func exploreCase(run *evid.Run, c concCase, bound int, deadline time.Time, st *S
 			defer func() {
 				if v := recover(); v != nil {
 					theGate.report(run, "panic:conc:"+c.Kind+":"+firstLine(fmt.Sprint(v)), fmt.Sprintf("panic in %s under schedule %v: %v\n%s", c, sched, v, debug.Stack()),
-						replayDoc{Kind: c.Kind, Stores: []string{c.Store}, Conc: &concDoc{Prefix: c.Prefix, Threads: c.Threads, Schedule: sched, Bound: bound}}, nil)
+						replayDoc{Kind: c.Kind, Stores: []string{c.Store}, Conc: &concDoc{Prefix: c.Prefix, Threads: c.Threads, Schedule: sched, Bound: bound, Timer: c.Timer}}, nil)
 					err = fmt.Errorf("panic")
 				}
 			}()
@@ -550,7 +638,7 @@ func replayConcDoc(doc replayDoc, rep reporter, logf func(string, ...any)) int {
 	if len(doc.Stores) > 0 {
 		store = doc.Stores[0]
 	}
-	c := concCase{Kind: doc.Kind, Store: store, Prefix: doc.Conc.Prefix, Threads: doc.Conc.Threads}
+	c := concCase{Kind: doc.Kind, Store: store, Prefix: doc.Conc.Prefix, Threads: doc.Conc.Threads, Timer: doc.Conc.Timer}
 	if doc.Conc.Free {
 		// a free-running case has no schedule to replay: it is executed 20 times
 		n := 0
